@@ -106,7 +106,16 @@ pub fn minimise(c: &Case, sig: &str, max_evals: usize, violations: &dyn Fn(&Case
             }
         }
     }
-    let Some(prog0) = best.prog.clone() else { return best };
+    let Some(prog0) = best.prog.clone() else {
+        // text-only case: delta-debug the text itself
+        let base = best.clone();
+        let mut pred = |t: &str| {
+            let c = Case { src: t.to_string(), ..base.clone() };
+            violations(&c).iter().any(|v| v.0 == sig)
+        };
+        best.src = minimise_text(&best.src, &mut pred, max_evals);
+        return best;
+    };
     let base = best.clone();
     let mut pred = |p: &Program| {
         if !crate::gens::tycheck::well_typed(p) {
@@ -170,4 +179,77 @@ pub fn norm(s: &str) -> String {
         last = c;
     }
     o
+}
+
+/// Text-level minimiser: removes lines (ddmin), then replaces / removes bracketed groups.
+pub fn minimise_text(src: &str, pred: &mut dyn FnMut(&str) -> bool, max_evals: usize) -> String {
+    let mut evals = 0usize;
+    let mut lines: Vec<String> = src.lines().map(|l| l.to_string()).collect();
+    // 1. ddmin over lines
+    let mut chunk = (lines.len() / 2).max(1);
+    while chunk >= 1 && evals < max_evals {
+        let mut i = 0;
+        let mut removed_any = false;
+        while i < lines.len() && evals < max_evals {
+            let end = (i + chunk).min(lines.len());
+            let cand: Vec<String> = lines[..i].iter().chain(lines[end..].iter()).cloned().collect();
+            evals += 1;
+            if !cand.is_empty() && pred(&cand.join("\n")) {
+                lines = cand;
+                removed_any = true;
+            } else {
+                i += chunk;
+            }
+        }
+        if chunk == 1 && !removed_any {
+            break;
+        }
+        if !removed_any {
+            chunk /= 2;
+        }
+    }
+    let mut cur = lines.join("\n");
+    // 2. bracketed groups: replace `( ... )` / `{ ... }` by a literal or drop them
+    loop {
+        let mut progressed = false;
+        let bytes: Vec<char> = cur.chars().collect();
+        let mut groups: Vec<(usize, usize)> = vec![];
+        let mut stack: Vec<(char, usize)> = vec![];
+        for (i, c) in bytes.iter().enumerate() {
+            match c {
+                '(' | '{' | '[' => stack.push((*c, i)),
+                ')' | '}' | ']' => {
+                    if let Some((o, s)) = stack.pop() {
+                        let ok = matches!((o, c), ('(', ')') | ('{', '}') | ('[', ']'));
+                        if ok && i > s + 1 {
+                            groups.push((s, i));
+                        }
+                    }
+                }
+                _ => {}
+            }
+        }
+        // larger groups first
+        groups.sort_by_key(|g| std::cmp::Reverse(g.1 - g.0));
+        'g: for (s, e) in groups {
+            for repl in ["1.0", "(1.0)", "{ 1.0 }", ""] {
+                if evals >= max_evals {
+                    return cur;
+                }
+                let cand: String = bytes[..s].iter().chain(repl.chars().collect::<Vec<_>>().iter()).chain(bytes[e + 1..].iter()).collect();
+                if cand.len() >= cur.len() {
+                    continue;
+                }
+                evals += 1;
+                if pred(&cand) {
+                    cur = cand;
+                    progressed = true;
+                    break 'g;
+                }
+            }
+        }
+        if !progressed {
+            return cur;
+        }
+    }
 }
